@@ -73,6 +73,24 @@ pub enum Path {
     /// FunctionModifier: func_entry() + an entry marker, NO finish_instr(), then inject_at(idx, mode, op) on the same modifier:
     /// inject_at names its instruction and mode explicitly, so the op belongs there whatever function-level mode is active
     ModifierInjectAtAfterFuncEntry,
+    /// iterator standing at its initial position: *_at(loc) sets the mode at the site, add_instr_at(loc, op) files the code there
+    IterAddInstrAt,
+    /// FunctionModifier: *_at(loc) + add_instr_at(loc, op)
+    ModifierAddInstrAt,
+    /// one FunctionModifier session over two sites X (= session_x) and Y (= inj.at): after_at(X); before_at(Y); inject(a);
+    /// add_instr_at(X, b); inject(c). a and c belong in front of Y, b behind X (add_instr_at must not move the cursor)
+    ModifierSession,
+}
+
+/// the second site of a `Path::ModifierSession` injection: a non-final instruction other than `at`
+pub fn session_x(inj: &Inj, n_ops: usize) -> usize {
+    let n = n_ops.saturating_sub(1).max(1);
+    let x = (inj.at + 1 + (inj.uid as usize % n)) % n;
+    if x == inj.at {
+        (x + 1) % n
+    } else {
+        x
+    }
 }
 
 #[derive(Clone, Debug)]
@@ -267,7 +285,7 @@ fn set_mode_iter<'a, T: IteratingInstrumenter<'a>>(it: &mut T, mode: Mode) {
         Mode::ClearBefore | Mode::ClearAfter | Mode::ClearAlt => unreachable!("clears are applied in apply_one_module"),
     }
 }
-fn set_mode_at<'a, T: Instrumenter<'a>>(fm: &mut T, mode: Mode, loc: Location) {
+pub fn set_mode_at<'a, T: Instrumenter<'a>>(fm: &mut T, mode: Mode, loc: Location) {
     match mode {
         Mode::Before => {
             fm.before_at(loc);
@@ -369,6 +387,34 @@ fn apply_one_module<'a>(m: &mut wirm::Module<'a>, inj: &Inj, ops: Vec<O<'static>
             }
             // the function-level mode is closed afterwards (it would otherwise stay active for later calls on this function)
             fm.finish_instr();
+        }
+        Path::IterAddInstrAt => {
+            let mut it = ModuleIterator::new(m, &vec![]);
+            set_mode_at(&mut it, inj.mode, loc);
+            for o in ops {
+                it.add_instr_at(loc, o);
+            }
+        }
+        Path::ModifierAddInstrAt => {
+            let mut fm = m.functions.get_fn_modifier(FunctionID(inj.func)).expect("modifier");
+            set_mode_at(&mut fm, inj.mode, loc);
+            for o in ops {
+                fm.add_instr_at(loc, o);
+            }
+        }
+        Path::ModifierSession => {
+            let n = m.functions.get(FunctionID(inj.func)).unwrap_local().body.instructions.len();
+            let x = Location::Module { func_idx: FunctionID(inj.func), instr_idx: session_x(inj, n) };
+            let mut fm = m.functions.get_fn_modifier(FunctionID(inj.func)).expect("modifier");
+            let pairs = probe_ops(inj.uid, 3);
+            fm.after_at(x);
+            fm.before_at(loc);
+            fm.inject(pairs[0].clone());
+            fm.inject(pairs[1].clone());
+            fm.add_instr_at(x, pairs[2].clone());
+            fm.add_instr_at(x, pairs[3].clone());
+            fm.inject(pairs[4].clone());
+            fm.inject(pairs[5].clone());
         }
         Path::Modifier | Path::ModifierInjectAt => {
             let mut fm = m.functions.get_fn_modifier(FunctionID(inj.func)).expect("modifier");
@@ -544,6 +590,14 @@ pub fn expected_body(ops: &[SymOp], plan: &[&Inj]) -> Vec<SymOp> {
     let st = structure(ops);
     let mut sites: Vec<Site> = vec![Site::default(); ops.len()];
     for inj in plan {
+        if inj.path == Path::ModifierSession {
+            let pairs: Vec<SymOp> = probe_ops(inj.uid, 3).iter().map(|o| sym::sym_op(o).unwrap()).collect();
+            let x = session_x(inj, ops.len());
+            sites[inj.at].before.extend(pairs[0..2].iter().cloned());
+            sites[x].after.extend(pairs[2..4].iter().cloned());
+            sites[inj.at].before.extend(pairs[4..6].iter().cloned());
+            continue;
+        }
         let probe: Vec<SymOp> = probe_ops_for(inj).iter().map(|o| sym::sym_op(o).unwrap()).collect();
         let s = &mut sites[inj.at];
         match inj.mode {
@@ -557,6 +611,16 @@ pub fn expected_body(ops: &[SymOp], plan: &[&Inj]) -> Vec<SymOp> {
             Mode::ClearAfter => s.after.clear(),
             Mode::ClearAlt => s.alt = None,
             _ => {}
+        }
+    }
+    // block-exit on an `if` (only planned by C21 for an `if` whose else is replaced): lowered at encode time, i.e. behind every
+    // before-code the caller put on the else / end where the then-arm falls through
+    for inj in plan {
+        if inj.mode == Mode::BlockExit && ops[inj.at].name == "If" {
+            if let Some(t) = st.else_of.get(&inj.at).or(st.end_of.get(&inj.at)) {
+                let probe: Vec<SymOp> = probe_ops_for(inj).iter().map(|o| sym::sym_op(o).unwrap()).collect();
+                sites[*t].before.extend(probe);
+            }
         }
     }
     let mut out = vec![];
@@ -807,6 +871,15 @@ pub fn gen_plan(id: &str, rng: &mut Rng) -> Result<(gen::GenModule, Vec<Inj>, bo
                 if mode != Mode::EmptyAlt && rng.chance(1, 10) {
                     path = Path::ModifierInjectAtAfterFuncEntry;
                 }
+                if mode != Mode::EmptyAlt && rng.chance(1, 8) {
+                    path = if rng.bool() { Path::IterAddInstrAt } else { Path::ModifierAddInstrAt };
+                }
+                // a two-site modifier session (needs a body with at least three instructions; the site Y gets before-code)
+                let flen = raw_in.funcs[(func - nimp) as usize].ops.len();
+                if flen >= 3 && rng.chance(1, 12) {
+                    mode = Mode::Before;
+                    path = Path::ModifierSession;
+                }
                 plan.push(Inj { func, at, mode, path, uid, n_ops: rng.range(1, 2), leading_drop: false, probe: Probe::Marker });
                 uid += 1;
                 // 1 in 8: what was injected at a site in one mode is withdrawn again (and possibly injected anew by a later step)
@@ -870,6 +943,14 @@ pub fn gen_plan(id: &str, rng: &mut Rng) -> Result<(gen::GenModule, Vec<Inj>, bo
                         }
                         plan.push(Inj { func: nimp + f as u32, at: c, mode, path, uid, n_ops: 1, leading_drop: is_if && mode == Mode::BlockAlt, probe: Probe::Marker });
                         uid += 1;
+                        // a replaced else: 1 in 3 its `if` also carries a block-exit probe, which stays where the then-arm ends (in front of the replacement)
+                        if is_else && rng.chance(1, 3) {
+                            let open = st.parent[c].unwrap();
+                            if !taken.iter().any(|(a, b)| open >= *a && open <= *b && !(*a == lo && *b == hi)) {
+                                plan.push(Inj { func: nimp + f as u32, at: open, mode: Mode::BlockExit, path: *rng.pick(&[Path::Iter, Path::Modifier]), uid, n_ops: 1, leading_drop: false, probe: Probe::Marker });
+                                uid += 1;
+                            }
+                        }
                         // 1 in 6: replacement code first, then an empty block-alternate on the same construct (the removal wins)
                         if mode == Mode::BlockAlt && rng.chance(1, 6) {
                             if is_if {
@@ -890,6 +971,17 @@ pub fn gen_plan(id: &str, rng: &mut Rng) -> Result<(gen::GenModule, Vec<Inj>, bo
                             plan.push(Inj { func: nimp + f as u32, at: b, mode: m, path: *rng.pick(&[Path::Iter, Path::Modifier]), uid, n_ops: 1, leading_drop: false, probe: Probe::Marker });
                             uid += 1;
                         }
+                    }
+                }
+                // an ordinary ALTERNATE on an instruction inside a replaced region disappears with the region (what happens to before / after
+                // code of removed instructions is not specified and is not generated)
+                for (lo, hi) in taken.clone() {
+                    let inner: Vec<usize> =
+                        (lo + 1..hi).filter(|i| !matches!(func.ops[*i].name.as_str(), "Block" | "Loop" | "If" | "Else" | "End" | "TryTable" | "Try")).collect();
+                    if !inner.is_empty() && rng.chance(1, 3) {
+                        let at = *rng.pick(&inner);
+                        plan.insert(0, Inj { func: nimp + f as u32, at, mode: Mode::Alt, path: *rng.pick(&[Path::Iter, Path::Modifier]), uid, n_ops: 1, leading_drop: false, probe: Probe::Marker });
+                        uid += 1;
                     }
                 }
                 // plain injections outside the replaced regions
@@ -1056,6 +1148,9 @@ fn path_of(s: &str) -> Option<Path> {
         "Modifier" => Path::Modifier,
         "ModifierInjectAt" => Path::ModifierInjectAt,
         "ModifierInjectAtAfterFuncEntry" => Path::ModifierInjectAtAfterFuncEntry,
+        "IterAddInstrAt" => Path::IterAddInstrAt,
+        "ModifierAddInstrAt" => Path::ModifierAddInstrAt,
+        "ModifierSession" => Path::ModifierSession,
         _ => return None,
     })
 }
